@@ -1140,6 +1140,11 @@ fn run_c20(ch: &mut Choices, rep: &mut RunReport) -> Outcome {
         p.send(&unsubscribe_bytes(pub_v5, 10, "other/x")).await;
         let mut expected: Vec<(String, Vec<u8>, Option<PubProps>)> = Vec::new();
         let mut alias_topics: HashMap<u16, String> = HashMap::new();
+        // one QoS 2 publish whose PUBREL is held back: (pkid, topic, payload, props, alias, index)
+        let mut deferred: Option<(u16, String, Vec<u8>, Option<PubProps>, Option<u16>, u32)> = None;
+        let mut rebound_while_deferred = false;
+        // PUBRECs that arrived while another handshake was being completed
+        let mut seen_rec: std::collections::HashSet<u16> = std::collections::HashSet::new();
         let mut seen_ping = false;
         let mut seen_unsuback = false;
         for i in 0..n_msgs {
@@ -1167,6 +1172,7 @@ fn run_c20(ch: &mut Choices, rep: &mut RunReport) -> Outcome {
                     }
                 }
             }
+            let props_alias = props.as_ref().and_then(|x| x.topic_alias);
             p.send(&publish_bytes(pub_v5, &wire_topic, &payload, qos, pkid, false, props.as_ref()))
                 .await;
             sh.trace(format!("publisher -> {topic} {} qos{qos} props={props:?}", String::from_utf8_lossy(&payload)));
@@ -1175,14 +1181,57 @@ fn run_c20(ch: &mut Choices, rep: &mut RunReport) -> Outcome {
                 x.topic_alias = None;
                 x
             });
-            expected.push((topic.to_string(), payload, exp_props));
+            // a QoS 2 publish may be released later, after further publishes (the
+            // message is forwarded when it is released, so that is its place in
+            // the expected order)
+            if qos == 2 && deferred.is_none() && sh.coin(1, 3) {
+                let alias = props_alias;
+                deferred = Some((pkid, topic.to_string(), payload, exp_props, alias, i));
+                sh.probe("qos2_release_deferred");
+                continue;
+            }
+            // releases go out in publish order (the statement of C06 says so too):
+            // an earlier deferred QoS 2 publish is released before this one if this
+            // one is QoS 2 itself, otherwise after it or later
+            let mut to_release: Vec<u16> = Vec::new();
+            let release_deferred = deferred.is_some() && (qos == 2 || sh.coin(1, 2));
+            let mut take_deferred = |expected: &mut Vec<(String, Vec<u8>, Option<PubProps>)>, to_release: &mut Vec<u16>| {
+                let (dpk, dt, dp, dprops, dalias, _di) = deferred.take().unwrap();
+                // was its alias bound to another topic in the meantime?
+                if let Some(a) = dalias {
+                    if alias_topics.get(&a).map(|t| *t != dt).unwrap_or(false) {
+                        rebound_while_deferred = true;
+                        sh.probe("alias_rebound_while_qos2_release_deferred");
+                    }
+                }
+                expected.push((dt, dp, dprops));
+                to_release.push(dpk);
+            };
             if qos == 2 {
+                if release_deferred {
+                    take_deferred(&mut expected, &mut to_release);
+                }
+                expected.push((topic.to_string(), payload, exp_props));
+                to_release.push(pkid);
+            } else {
+                expected.push((topic.to_string(), payload, exp_props));
+                if release_deferred {
+                    take_deferred(&mut expected, &mut to_release);
+                }
+            }
+            for pkid in to_release {
                 // complete the handshake
                 let mut released = false;
+                if seen_rec.remove(&pkid) {
+                    p.send(&ack_bytes(pub_v5, 2, pkid)).await;
+                }
                 for _ in 0..20 {
                     match p.recv(Duration::from_secs(1)).await {
                         Rx::PubRec(id) if id == pkid => {
                             p.send(&ack_bytes(pub_v5, 2, pkid)).await;
+                        }
+                        Rx::PubRec(id) => {
+                            seen_rec.insert(id);
                         }
                         Rx::PubComp(id) if id == pkid => {
                             released = true;
@@ -1199,6 +1248,38 @@ fn run_c20(ch: &mut Choices, rep: &mut RunReport) -> Outcome {
                     sh.viol("publisher_qos2_handshake_incomplete", format!("QoS 2 publish {pkid} of the v{} publisher was not completed", if pub_v5 { 5 } else { 4 }));
                     return;
                 }
+            }
+        }
+        if let Some((dpk, dt, dp, dprops, dalias, _)) = deferred.take() {
+            if let Some(a) = dalias {
+                if alias_topics.get(&a).map(|t| *t != dt).unwrap_or(false) {
+                    rebound_while_deferred = true;
+                    sh.probe("alias_rebound_while_qos2_release_deferred");
+                }
+            }
+            expected.push((dt, dp, dprops));
+            let mut released = false;
+            if seen_rec.remove(&dpk) {
+                p.send(&ack_bytes(pub_v5, 2, dpk)).await;
+            }
+            for _ in 0..20 {
+                match p.recv(Duration::from_secs(1)).await {
+                    Rx::PubRec(id) if id == dpk => {
+                        p.send(&ack_bytes(pub_v5, 2, dpk)).await;
+                    }
+                    Rx::PubComp(id) if id == dpk => {
+                        released = true;
+                        break;
+                    }
+                    Rx::PingResp => seen_ping = true,
+                    Rx::UnsubAck(10) => seen_unsuback = true,
+                    Rx::Closed | Rx::Timeout => break,
+                    _ => {}
+                }
+            }
+            if !released {
+                sh.viol("publisher_qos2_handshake_incomplete", format!("deferred QoS 2 publish {dpk} of the v{} publisher was not completed", if pub_v5 { 5 } else { 4 }));
+                return;
             }
         }
         // collect at the subscriber
@@ -1251,7 +1332,9 @@ fn run_c20(ch: &mut Choices, rep: &mut RunReport) -> Outcome {
         }
         for (i, ((et, ep, eprops), (gt, gp, gprops, gq))) in expected.iter().zip(got.iter()).enumerate() {
             if et != gt || ep != gp {
-                let class = if et != gt && sub_alias_max.is_some() {
+                let class = if et != gt && rebound_while_deferred {
+                    "wrong_topic_or_payload:alias_rebound_before_qos2_release"
+                } else if et != gt && sub_alias_max.is_some() {
                     "wrong_topic_or_payload:subscriber_uses_topic_aliases"
                 } else {
                     "wrong_topic_or_payload"
